@@ -51,7 +51,7 @@ func (c *countCtx) polls() int {
 	return c.n
 }
 
-var stubNames = []string{"probe", "id", "probe2", "probe3", "vprobe", "fv", "typed", "typed2", "vtyped", "boom", "zero", "two", "eachcb", "callcb0", "cbv", "panicwith", "panicctx", "wantsptr", "wantsptr2", "wantsstr", "wantsints", "reterr", "reterr2"}
+var stubNames = []string{"probe", "id", "probe2", "probe3", "vprobe", "fv", "typed", "typed2", "vtyped", "boom", "zero", "two", "eachcb", "callcb0", "cbv", "panicwith", "panicctx", "wantsptr", "wantsptr2", "wantsstr", "wantsints", "wantsnil", "wantsnilv", "reterr", "reterr2"}
 
 // vmResult is one run of a parsed program on the real interpreter.
 type vmResult struct {
@@ -127,6 +127,9 @@ func defineStubs(e *env.Env, tr func(interface{})) {
 	// host functions that RETURN an error value (nothing is raised): an ordinary result
 	must(e.Define("reterr", func() error { tr("reterr"); return fmt.Errorf("returned, not raised") }))
 	must(e.Define("reterr2", func() (int64, error) { tr("reterr2"); return 3, fmt.Errorf("returned, not raised") }))
+	// a function-typed value that is nil (an unset callback of the host): calling it fails, AFTER its arguments were evaluated
+	must(e.Define("wantsnil", (func(int64, int64) int64)(nil)))
+	must(e.Define("wantsnilv", (func(...interface{}))(nil)))
 	must(e.Define("zero", func() {}))
 	must(e.Define("two", func() (interface{}, interface{}) { return int64(1), "two" }))
 }
